@@ -159,6 +159,7 @@ func wlRunCase(c *wlCase, backend string, rt node.RootType, st *wlStats, maxAcce
 	it, err := ndbA.GetWriteLog(ctx, r1, r2)
 	if err != nil {
 		st.notServed.Add(1)
+		st.decline(err.Error(), r1.Hash.Equal(&r2.Hash), len(c.M2) == 0)
 	} else {
 		var served writelog.WriteLog
 		for {
@@ -179,6 +180,7 @@ func wlRunCase(c *wlCase, backend string, rt node.RootType, st *wlStats, maxAcce
 		}
 		if err != nil {
 			st.notServed.Add(1)
+			st.decline("iterator: "+err.Error(), r1.Hash.Equal(&r2.Hash), len(c.M2) == 0)
 		} else {
 			st.served.Add(1)
 			t2 := mkvs.NewWithRoot(nil, ndbA, r1)
@@ -286,6 +288,20 @@ func wlReadBack(ctx context.Context, ndb dbapi.NodeDB, root node.Root, want [][2
 
 type wlStats struct {
 	served, notServed, logDrift, applies, accepted, rejected, already atomic.Int64
+	mu       sync.Mutex
+	declines map[string]int // "<same root?>/<empty r2?>: error text" -> count
+}
+
+func (st *wlStats) decline(msg string, same, empty bool) {
+	st.mu.Lock()
+	defer st.mu.Unlock()
+	if st.declines == nil {
+		st.declines = map[string]int{}
+	}
+	if len(msg) > 120 {
+		msg = msg[:120]
+	}
+	st.declines[fmt.Sprintf("%s (same root: %v, empty second root: %v)", msg, same, empty)]++
 }
 
 func wlogReplay(args []string) int {
@@ -371,7 +387,7 @@ func wlogReplay(args []string) int {
 	defer w.Close()
 	w.Write(mustJSON(map[string]any{
 		"cases": nCases, "classes": classes, "findings": findings, "samples": samples,
-		"served": st.served.Load(), "not_served": st.notServed.Load(), "log_drift": st.logDrift.Load(),
+		"served": st.served.Load(), "not_served": st.notServed.Load(), "declines": st.declines, "log_drift": st.logDrift.Load(),
 		"applies": st.applies.Load(), "expected_accept": st.accepted.Load(), "expected_reject": st.rejected.Load(), "expected_root_already_present": st.already.Load(),
 	}))
 	return 0
